@@ -6,14 +6,15 @@ from vlib.skyb import hx
 
 PID = "C13"
 LEAN_MODULE = "Sb.Properties.C13"
-THEOREMS = ["Sb.C13.firstTouch_none", "Sb.C13.firstTouch_some", "Sb.C13.first_crossing", "Sb.C13.never_reached", "Sb.C13.earliest_in_segment", "Sb.C13.takeoff_infinite_iff", "Sb.C13.takeoff_value", "Sb.C13.params_screening", "Sb.C13.touchesLinear_spec"]
+THEOREMS = ["Sb.C13.firstTouch_none", "Sb.C13.firstTouch_some", "Sb.C13.first_crossing", "Sb.C13.never_reached", "Sb.C13.earliest_in_segment", "Sb.C13.takeoff_infinite_iff", "Sb.C13.takeoff_value", "Sb.C13.params_screening", "Sb.C13.touchesLinear_spec",
+            "Sb.Corr.Cert.pos_sound", "Sb.Corr.Cert.root_sound", "Sb.Corr.Cert.segs_cover", "Sb.Corr.Cert.segs_roots", "Sb.Corr.Cert.partition_complete", "Sb.Corr.Cert.partition_sound", "Sb.Corr.Cert.reachesCert_true", "Sb.Corr.Cert.reachesCert_false", "Sb.Corr.Cert.hasRootCert_true", "Sb.Corr.Cert.hasRootCert_false", "Sb.Corr.Cert.rootsCert_complete", "Sb.Corr.Cert.rootsCert_sound", "Sb.Corr.Cert.sqrt2Segs_ok"]
 RULE = ("trajectory files with 1..7 segments whose altitude encodings are constant, linear or well-conditioned cubic (5% rule), arbitrary "
         "x/y encodings incl. degree 7, scales {1, 10, 127}; climbs, hovers, descents before the climb, plateaus; takeoff ascents h chosen "
         "from: 0, the altitude gain at every segment boundary exactly (crossing exactly at a boundary / plateau exactly at the target), "
         "fractions inside every segment's gain, a hair above an initial hover (1..3 float steps, up to 1e-3 mm), the maximum gain exactly and just beyond (never reached); speeds {500.5, 1000, 2000}, "
         "accelerations {1, 1000, 4000, +inf}; invalid parameters {negative, zero, +-inf, NaN} in each position. The proposal function "
         "and the one-pass statistics interface are both called, through both loading routes. Non-trivial: at least one segment.")
-ASSUMPTIONS = ["'E' is judged through the altitude it yields and through 'not robustly reached earlier', decided exactly (Sturm) on the exact Bezier "
+ASSUMPTIONS = ["'E' is judged through the altitude it yields and through 'not robustly reached earlier', decided exactly (certified root oracle) on the exact Bezier "
                "altitude polynomials; tolerance: float rounding for constant/linear altitude, residTol=1/500 of the coefficient magnitude for cubic altitude",
                "the climb time T is the implementation's own sb_get_travel_time_for_distance (verified under C20); E - T is checked bit-exactly"]
 
